@@ -240,7 +240,7 @@ def _check_array(lens):
 
 # ---- listed texts outside the grammar that no generator above spells (each must be rejected with the syntax error) ----
 LISTED_MALFORMED = ['=ANCHORARRAY(A1:B2)', '=ANCHORARRAY(A1:B2)+1', '=1< >2', '=1<  =2', '=1> =2', '=A1< >B1', '={1))', '=(1}', '={1)', '=1 2',
-                    '="a" "b"', '=1+', '=*2', '=SUM(1', '=SUM 1)', '=1)', '=((1)', '={1,2;3}', '=#REF', '=1..2', '=1E', '=1e+']
+                    '="a" "b"', '=SUM("" 2)', '=SUM(""2)', '=SUM(2 "")', '=IF(A1,"" "x")', '={"" 1,2}', '=COUNTA("" A1)', '="" 2', '=SUM(1 "")', '=1+', '=*2', '=SUM(1', '=SUM 1)', '=1)', '=((1)', '={1,2;3}', '=#REF', '=1..2', '=1E', '=1e+']
 
 
 def _check_listed(text):
